@@ -301,6 +301,8 @@ impl Builder {
         match idx {
             Some(idx) => {
                 if idx < self.module.functions.len() {
+                    // the selected block belongs to the previously selected function
+                    self.selected_block = None;
                     self.selected_function = Some(idx);
                     Ok(())
                 } else {
@@ -387,6 +389,7 @@ impl Builder {
             None,
             vec![],
         ));
+        self.selected_block = None;
         self.selected_function = None;
         Ok(())
     }
